@@ -5,6 +5,7 @@ import (
 	"math/rand"
 	"sort"
 	"strings"
+	"time"
 
 	corev3 "github.com/envoyproxy/go-control-plane/envoy/config/core/v3"
 	endpoint "github.com/envoyproxy/go-control-plane/envoy/config/endpoint/v3"
@@ -435,7 +436,7 @@ func runEDS(c *vh.Ctx) {
 				}
 			}
 			push := srv.PushContext()
-			gen := srv.Discovery.Generators[v3.EndpointType]
+			gen := prodEDSGenerator(srv) // shares the index's cache, as in istiod (see gen.go)
 			filtered, kept, compared := 0, 0, 0
 			var sample map[string]any
 			for _, p := range edsProxies {
@@ -463,9 +464,13 @@ func runEDS(c *vh.Ctx) {
 				// through the generator twice (second time served from the cache) and through the builder
 				got := map[string][]*endpoint.ClusterLoadAssignment{}
 				for pass := 0; pass < 2; pass++ {
-					res, _, err := gen.Generate(proxy, &model.WatchedResource{TypeUrl: v3.EndpointType, ResourceNames: names}, &model.PushRequest{Forced: true, Push: push})
+					// Start is only the cache token (the endpoint cache stores nothing for a request without a start time)
+					res, logd, err := gen.Generate(proxy, &model.WatchedResource{TypeUrl: v3.EndpointType, ResourceNames: names}, &model.PushRequest{Forced: true, Push: push, Start: time.Now()})
 					if err != nil {
 						vh.Abort("eds generate: %v", err)
+					}
+					if nCached, _, ok := cachedOf(logd); ok {
+						c.Count(fmt.Sprintf("eds_generator_pass%d_assignments_from_cache", pass+1), nCached)
 					}
 					for _, rsc := range res {
 						cla := &endpoint.ClusterLoadAssignment{}
